@@ -293,6 +293,31 @@ impl FileUploadSession {
     }
 }
 
+// verification hook: construct a session around a caller-supplied client (call log / fault
+// injection wrapper). Mirrors `new_impl` except for where the client comes from.
+#[cfg(huggingface_xet_core_verif)]
+impl FileUploadSession {
+    pub async fn verif_new_with_client(
+        config: Arc<TranslatorConfig>,
+        threadpool: Arc<ThreadPool>,
+        client: Arc<dyn Client + Send + Sync>,
+    ) -> Result<Arc<FileUploadSession>> {
+        let shard_interface = SessionShardInterface::new(config.clone(), client.clone(), false).await?;
+
+        Ok(Arc::new(Self {
+            shard_interface,
+            client,
+            upload_progress_updater: None,
+            threadpool,
+            repo_id: None,
+            config,
+            current_session_data: Mutex::new(DataAggregator::default()),
+            deduplication_metrics: Mutex::new(DeduplicationMetrics::default()),
+            xorb_upload_tasks: Mutex::new(JoinSet::new()),
+        }))
+    }
+}
+
 #[cfg(test)]
 mod tests {
     use std::fs::{File, OpenOptions};
